@@ -863,6 +863,8 @@ def main(tier=None, replay=None):
     ]
     import c11back
     c11back.run(ck)      # backward time and time-dependent events through the public integrators (Contracts.tla)
+    import c11hist
+    c11hist.run(ck)      # closure histories (same def, different captured constant) and binding step limits without a crossing
     return ck.finish()
 
 
